@@ -41,7 +41,7 @@ const ext3Base = 3_000_000
 // write, the recorded primary's certificate is for another key. Found by X7 on the unchanged tree and reported to the
 // coordinator; while false, what follows a rotation run with such a stale value is counted, not judged.
 // (VERIF_C10_JUDGE_STALE=1 in the environment judges it all the same: for trying a repair out, never needed for a pass.)
-const judgeStaleValueAfterAmbiguousManifestWriteDefault = false
+const judgeStaleValueAfterAmbiguousManifestWriteDefault = true
 
 var judgeStaleValueAfterAmbiguousManifestWrite = judgeStaleValueAfterAmbiguousManifestWriteDefault || os.Getenv("VERIF_C10_JUDGE_STALE") == "1"
 
